@@ -3,7 +3,6 @@ package main
 import (
 	"go/types"
 	"sort"
-	"strings"
 
 	"golang.org/x/tools/go/ssa"
 )
@@ -58,7 +57,12 @@ func runPoolReset(rc *RuleCtx) {
 		reset  map[string]bool
 		putter *ssa.Function
 	}
-	byType := map[string]*tinfo{}
+	byType := map[string]*tinfo{} // one entry per (type, putter): every putter must reset by itself
+	pooledTypes := map[string]bool{}
+	putterFns := map[*ssa.Function]bool{}
+	for fn := range putters {
+		putterFns[fn] = true
+	}
 	for fn, idx := range putters {
 		if idx >= len(fn.Params) {
 			continue
@@ -68,11 +72,9 @@ func runPoolReset(rc *RuleCtx) {
 		if named == nil || st == nil || named.Obj().Pkg() == nil || !inRepo(named.Obj().Pkg().Path()) {
 			continue
 		}
-		ti := byType[typeShort(named)]
-		if ti == nil {
-			ti = &tinfo{named: named, reset: map[string]bool{}, putter: fn}
-			byType[typeShort(named)] = ti
-		}
+		ti := &tinfo{named: named, reset: map[string]bool{}, putter: fn}
+		byType[typeShort(named)+"@"+shortName(fn)] = ti
+		pooledTypes[typeShort(named)] = true
 		fieldsStored(fn, p, ti.reset)
 		// methods called on the object inside the putter (reset helpers), one level
 		for _, b := range fn.Blocks {
@@ -120,12 +122,14 @@ func runPoolReset(rc *RuleCtx) {
 				if !ok {
 					continue
 				}
-				ti := byType[typeShort(t)]
-				if ti == nil || fn == ti.putter {
+				if !pooledTypes[typeShort(t)] || putterFns[fn] {
 					continue
 				}
 				if allocatedHere(fa.X) {
 					continue // field of a value under construction
+				}
+				if fn.Name() == "reset" || fn.Name() == "Reset" {
+					continue // the reset helper itself is not an "other" mutation site
 				}
 				if mutated[typeShort(t)] == nil {
 					mutated[typeShort(t)] = map[string]string{}
@@ -141,8 +145,9 @@ func runPoolReset(rc *RuleCtx) {
 		tnames = append(tnames, n)
 	}
 	sort.Strings(tnames)
-	for _, tn := range tnames {
-		ti := byType[tn]
+	for _, key := range tnames {
+		ti := byType[key]
+		tn := typeShort(ti.named)
 		var fields []string
 		for f := range mutated[tn] {
 			fields = append(fields, f)
@@ -151,10 +156,6 @@ func runPoolReset(rc *RuleCtx) {
 		for _, f := range fields {
 			rc.Examined++
 			where := mutated[tn][f]
-			// stores performed by the reset helper itself are not "other" mutation sites
-			if strings.Contains(where, ").reset ") || strings.Contains(where, ".Reset ") {
-				continue
-			}
 			rc.verdict(ti.reset[f], ti.putter, "reset "+tn+"."+f, ti.putter.Pos(), map[bool]string{true: "reset before the object returns to the pool", false: "field " + f + " of pooled " + tn + " is assigned in " + where + " but never reset when the object is returned to the pool by " + shortName(ti.putter)}[ti.reset[f]], true)
 		}
 	}
